@@ -40,7 +40,7 @@ func (r *DataMatrixReader) Decode(image *gozxing.BinaryBitmap, hints map[gozxing
 	if _, ok := hints[gozxing.DecodeHintType_PURE_BARCODE]; ok {
 		blackm, e := image.GetBlackMatrix()
 		if e != nil {
-			return nil, gozxing.WrapReaderException(e)
+			return nil, gozxing.WrapNotFoundException(e)
 		}
 		bits, e := extractPureBits(blackm)
 		if e != nil {
@@ -54,7 +54,7 @@ func (r *DataMatrixReader) Decode(image *gozxing.BinaryBitmap, hints map[gozxing
 	} else {
 		blackm, e := image.GetBlackMatrix()
 		if e != nil {
-			return nil, gozxing.WrapReaderException(e)
+			return nil, gozxing.WrapNotFoundException(e)
 		}
 		detector, e := detector.NewDetector(blackm)
 		if e != nil {
